@@ -7,7 +7,9 @@ bodies of the critical sections. Labels are the atomic sections of the Go code a
 * `mut op`        SetAttributes / AddEvent / AddLink / RecordError / SetStatus / SetName: `s.mu.Lock(); if
                   !s.isRecording() {return}; …; s.mu.Unlock()` — one label; the body is `C04.step`, whose first test is
                   the recording check (`C04.St.ended` ⇔ `!endTime.IsZero()`);
-* `addChild`      tracer.Start → parent.addChild(): lock; `if !isRecording return`; childSpanCount++; unlock;
+* `addChild d`    tracer.Start → parent.addChild(): lock; `if !isRecording return`; childSpanCount++; unlock. It runs
+                  BEFORE newSpan asks the sampler, so the child's sampling decision `d` (Drop / RecordOnly /
+                  RecordAndSample) is carried by the label but read by nothing (`child_count_independent_of_child_sampling`);
 * `access`        IsRecording / EndTime / ChildSpanCount / … (lock, read, unlock) and the provider/tracer methods that
                   never touch the span (Tracer, ForceFlush): no effect on the span;
 * `register p` / `unregister p`   provider.go: under p.mu, copy-on-write of the atomic processor list;
@@ -34,6 +36,11 @@ the ending call loaded), `taskEnds` (number of runtime/trace task ends), `delive
 import Otel.C04.Model
 namespace Otel.C10
 open Otel Otel.C04
+
+/-- the sampler's decision for a child span started with this span as parent (sdk/trace SamplingDecision) -/
+inductive Decision where
+  | drop | recordOnly | recordAndSample
+deriving DecidableEq, Repr
 
 /-- the ReadOnlySpan handed to OnEnd: C04's snapshot + end time + child count -/
 structure Snapshot where
@@ -73,7 +80,7 @@ deriving Repr
 
 inductive Lbl where
   | mut (op : Op)
-  | addChild
+  | addChild (d : Decision)
   | access
   | register (p : Nat)
   | unregister (p : Nat)
@@ -99,7 +106,7 @@ def step (c : Cfg) (s : St) : Lbl → Option St
   | .mut op =>
     if op = .end_ then none
     else some { s with data := C04.step c.lim s.data op, hist := s.hist ++ [op] }
-  | .addChild =>
+  | .addChild _ =>
     some { s with children := if s.data.ended then s.children else s.children + 1,
                   childLabels := s.childLabels + 1 }
   | .access => some s
@@ -193,7 +200,7 @@ inductive Prim where
 deriving DecidableEq, Repr
 
 def Lbl.prims : Lbl → List Prim
-  | .mut _ | .addChild | .access | .endLock _ _ | .snapshot _ _ => [.lock, .body, .unlock]
+  | .mut _ | .addChild _ | .access | .endLock _ _ | .snapshot _ _ => [.lock, .body, .unlock]
   | .register _ | .unregister _ | .endCall _ _ | .loadProcs _ | .endReturn _ _ => [.body]
   | .taskEnd _ | .onEnd _ _ _ _ => [.callout]
   | .oTaskEnd _ _ => [.callout]
